@@ -126,6 +126,17 @@ impl Handler for JSXCurlyBracesHandler {
       match value {
         JSXAttrValue::JSXExprContainer(expr) => {
           if let JSXExpr::Expr(Expr::Lit(Lit::Str(lit_str))) = expr.expr {
+            // A JSX attribute string has no escape sequences, so it has to
+            // be delimited by a quote that does not occur in the value. If
+            // both kinds of quote occur the curly braces are needed.
+            let str_value = lit_str.value();
+            let quote = if !str_value.contains('"') {
+              '"'
+            } else if !str_value.contains('\'') {
+              '\''
+            } else {
+              return;
+            };
             ctx.add_diagnostic_with_fixes(
               value.range(),
               CODE,
@@ -135,7 +146,7 @@ impl Handler for JSXCurlyBracesHandler {
                 description: "Remove curly braces around JSX attribute value"
                   .into(),
                 changes: vec![LintFixChange {
-                  new_text: format!("\"{}\"", lit_str.value()).into(),
+                  new_text: format!("{quote}{str_value}{quote}").into(),
                   range: value.range(),
                 }],
               }],
